@@ -22,7 +22,7 @@ DECIDED = ["D1 closed schemas", "D2 formats pairwise disjoint", "D3 declared pre
 UNDECIDED = ["equality after a round trip for all documents", "sub-second timestamp precision"]
 TRUSTED = ["serde derive semantics", "chrono RFC 3339 formatting and parsing are inverse to the second"]
 ASSUMPTIONS = []
-FLOORS = {"C19/D1": 10, "C19/D2": 4, "C19/D3": 2, "C19/D4": 2, "C19/D5": 8, "C19/D6": 8}
+FLOORS = {"C19/D1": 10, "C19/D2": 4, "C19/D3": 2, "C19/D4": 6, "C19/D5": 8, "C19/D6": 8}
 
 PRED_FORMATS = {"LinkV0_2": "models::predicate::link_v02::LinkV02", "SLSAProvenanceV0_1": "models::predicate::slsa_provenance_v01::SLSAProvenanceV01",
                 "SLSAProvenanceV0_2": "models::predicate::slsa_provenance_v02::SLSAProvenanceV02"}
@@ -95,6 +95,16 @@ def run(ctx):
         d = S.de.get(w)
         okd = bool(d) and any((x.get("fn") or "").endswith("::try_from_value") for x in d["delegates"])
         ctx.inst("C19/D4", "%s deserialises by version detection" % w.split("::")[-1], okd, "delegates: %s" % (d["delegates"] if d else None))
+        # ... and by nothing else: every Ok the decoder returns is the Ok of the version-detecting entry point (a direct
+        # decode of one format next to it skips the consistency checks that entry point applies)
+        df = [g for g in fx.doc["fns"] if g["path"].startswith("<%s as" % w) and g["path"].endswith("Deserialize<'de>>::deserialize") and not g.get("exp")]
+        if len(df) == 1:
+            rb = ctx.region(None, policy=("private-except", frozenset(
+                [g["path"] for g in fx.doc["fns"] if g["path"].endswith("::try_from_value")])), key=df[0]["key"], ps=True)
+            lv = rb.trace({"l": 0, "p": []}, (OK, F0), lambda t: (callee_name(t) or "").endswith("::try_from_value"))
+            only = bool(lv) and all(l.kind == "call" and (callee_name(l.data[1]) or "") == w + "::try_from_value" and l.path == (OK, F0) for l in lv)
+            ctx.inst("C19/D4", "%s: every decoded value comes out of try_from_value" % w.split("::")[-1], only,
+                     "Ok payload <- {%s}" % ", ".join(leaf_s(rb, l) for l in lv), df[0]["at"])
     # ---- D3
     fv = find_from_value(fx, "models::statement::StatementWrapper", "models::statement::StatementVer")
     if fv is None:
